@@ -325,7 +325,7 @@ func countTypes(b []*batchOp) int {
 }
 
 func checkC13(c *hx.Ctx) {
-	c.Rule("batches of client-built operations through the REAL OperationHandler, gzip and OperationProvider over an in-memory CAS: all 4+16+64+256 type sequences of length <= 4 on distinct DIDs (exhaustive), the same sequences with repeated suffixes at every position, deactivate-only / update-only / single-operation / maximum-size batches, batches with operations expired on a virtual clock (also all-expired), random mixes up to MaxOperationCount; every operation carries a unique marker; oracle: one operation per distinct suffix (the first queued) reads back with same type, suffix, JSON-equal request and embedded anchor origin, ordered create, recover, update, deactivate; anchor count = operations read back; included + deferred + expired = queued exactly once; every batch is also read back through the transaction's alternate sources by a node holding no file, and re-created with the k-th CAS write failing (once / permanently) for every k: error or an anchor string that reads back as the batch; non-trivial = batch with >= 2 operations; distinct = distinct batches")
+	c.Rule("batches of client-built operations through the REAL OperationHandler, gzip and OperationProvider over an in-memory CAS: all 4+16+64+256 type sequences of length <= 4 on distinct DIDs (exhaustive), the same sequences with repeated suffixes at every position, deactivate-only / update-only / single-operation / maximum-size batches, operations of different DIDs that reveal the same key, batches with operations expired on a virtual clock (also all-expired), random mixes up to MaxOperationCount; every operation carries a unique marker; oracle: one operation per distinct suffix (the first queued) reads back with same type, suffix, JSON-equal request and embedded anchor origin, ordered create, recover, update, deactivate; anchor count = operations read back; included + deferred + expired = queued exactly once; every batch is also read back through the transaction's alternate sources by a node holding no file, and re-created with the k-th CAS write failing (once / permanently) for every k: error or an anchor string that reads back as the batch; non-trivial = batch with >= 2 operations; distinct = distinct batches")
 	rng := c.Rng("pool")
 	type env struct {
 		p    protocol.Protocol
@@ -464,6 +464,37 @@ func checkC13(c *hx.Ctx) {
 			}
 		}
 	}
+	// two DIDs whose controllers use the same recovery key (legal, unusual): their recovers carry the same reveal value
+	for ei, e := range envs {
+		code := []uint64{ref.SHA256, ref.SHA512}[ei]
+		var recs, ups []*batchOp
+		for k := 0; k < 2; k++ {
+			cd, cr, err := NewCDid(hx.NewRng(4242, "shared-recovery-key"), code, []string{"P-256"}, 300, false,
+				[]interface{}{patchAddServices(svcEntry(fmt.Sprintf("own%d", k), "t", fmt.Sprintf("https://own%d.example", k)))}, nil, "o", "")
+			if err != nil {
+				panic(err)
+			}
+			cd.Suffix = suffixOf(cr.Req, code)
+			curU, curR := cd.CurU, cd.CurR
+			b, err := cd.Recover([]interface{}{patchAddServices(svcEntry(fmt.Sprintf("rec%d", k), "t", "https://rec.example"))}, nil, "o2", 0, 0)
+			if err != nil {
+				panic(err)
+			}
+			recs = append(recs, &batchOp{ID: fmt.Sprintf("shared%d-recover", k), Type: "recover", Suffix: cd.Suffix, Req: b.Req, Origin: "o2"})
+			cd.CurU, cd.CurR = curU, curR
+			u, err := cd.Update([]interface{}{patchAddServices(svcEntry(fmt.Sprintf("upd%d", k), "t", "https://upd.example"))}, 0, 0)
+			if err != nil {
+				panic(err)
+			}
+			ups = append(ups, &batchOp{ID: fmt.Sprintf("shared%d-update", k), Type: "update", Suffix: cd.Suffix, Req: u.Req, QOrigin: "o"})
+		}
+		if recs[0].Suffix != recs[1].Suffix {
+			jobs = append(jobs, job{e, []*batchOp{recs[0], recs[1]}, 100, "operations-sharing-a-key"},
+				job{e, []*batchOp{pick(e, 0, "create", 0), recs[1], pick(e, 1, "update", 0), recs[0], pick(e, 2, "deactivate", 0)}, 100, "operations-sharing-a-key"},
+				job{e, []*batchOp{ups[0], ups[1]}, 100, "operations-sharing-a-key"},
+				job{e, []*batchOp{ups[1], recs[0]}, 100, "operations-sharing-a-key"})
+		}
+	}
 	// random mixes
 	nRand := c.N(1500, 60000)
 	rr := c.Rng("random")
@@ -492,7 +523,7 @@ func checkC13(c *hx.Ctx) {
 	c.Sample(3, map[string]interface{}{"batch": ids(jobs[len(seqs)/2].batch), "tag": jobs[len(seqs)/2].tag})
 	c.Sample(3, map[string]interface{}{"batch": ids(jobs[len(jobs)-1].batch), "tag": "random"})
 	c.Set("exhaustive_type_sequences", len(seqs))
-	for _, t := range []string{"types-distinct-dids", "repeated-suffix", "expiring-at-450", "expiring-at-600", "update-only-max", "deactivate-only-max", "single", "maximum-size", "tight-file-limits", "random", "six-operations-one-suffix"} {
+	for _, t := range []string{"types-distinct-dids", "repeated-suffix", "expiring-at-450", "expiring-at-600", "update-only-max", "deactivate-only-max", "single", "maximum-size", "tight-file-limits", "random", "six-operations-one-suffix", "operations-sharing-a-key"} {
 		c.Floor("ok:"+t, 1)
 	}
 	c.Floor("all_expired_batches", 1)
